@@ -1666,7 +1666,10 @@ class MPO(MPSGeometry):
             raise NotImplementedError("Can't use explicit_plus_hc with apply_naively")
         for i in range(psi.L):
             B = npc.tensordot(psi.get_B(i, 'B'), self.get_W(i), axes=('p', 'p*'))
-            if i == 0 and bc == 'finite':
+            if i == 0 and bc == 'finite' and psi.L == 1:
+                # a single site is the first and the last one: project both virtual legs of the MPO
+                B = B.take_slice([self.get_IdL(i), self.get_IdR(i)], ['wL', 'wR'])
+            elif i == 0 and bc == 'finite':
                 B = B.take_slice(self.get_IdL(i), 'wL')
                 B = B.combine_legs(['wR', 'vR'], qconj=[-1])
                 B.ireplace_labels(['(wR.vR)'], ['vR'])
@@ -1760,6 +1763,10 @@ class MPO(MPSGeometry):
             raise ValueError('Only finite boundary conditions implemented')
         if self.explicit_plus_hc:
             raise NotImplementedError("Can't use explicit_plus_hc with apply_zipup")
+        if psi.L == 1:
+            # nothing to zip up on a single site
+            self.apply_naively(psi)
+            return trunc_err
         for i in range(psi.L):
             B = npc.tensordot(psi.get_B(i, 'B'), self.get_W(i), axes=('p', 'p*'))
             if i == 0 and bc == 'finite':
